@@ -127,6 +127,27 @@ impl DataLog {
             })
     }
 
+    /// Sets the QoS of the request of `id` for `filter`, if it is parked
+    pub fn update_waiter_qos(&mut self, id: ConnectionId, filter: &Filter, qos: u8) {
+        // a shared subscription ($share/group/filter) reads the log of the plain filter
+        let log_filter = filter
+            .strip_prefix("$share/")
+            .and_then(|s| s.split_once('/'))
+            .map_or(filter.as_str(), |(_group, path)| path);
+        let Some(data) = self
+            .filter_indexes
+            .get(log_filter)
+            .and_then(|idx| self.native.get_mut(*idx))
+        else {
+            return;
+        };
+        for (conn_id, request) in data.waiters.get_mut().iter_mut() {
+            if *conn_id == id && request.filter == *filter {
+                request.qos = qos;
+            }
+        }
+    }
+
     /// Takes the requests parked on the log that `filter` reads
     pub fn take_waiters(
         &mut self,
